@@ -21,11 +21,12 @@ END = None          # end of input marker in a prefix
 class TokModel:
     def __init__(self, prog):
         self.prog = prog
-        self.fn = prog.lib_fn(TOK + "try_tokenize_recursive")
+        import workers
+        self.fn = workers.tokenizer_main(prog)          # found as the recursive function behind try_tokenize_formula
         self.ok = False
         if self.fn is None:
             return
-        self.eng = terms.Engine(prog, inline=True, hooks=E.Hooks([TOK], opaque_names=[TOK + "try_tokenize_recursive"]))
+        self.eng = terms.Engine(prog, inline=True, hooks=E.Hooks([TOK], opaque_names=[self.fn.path]))
         self.summ = self.eng.summary(self.fn)
         self.pn = self.fn.param_names()
         self.it_param = self.pn[0]
